@@ -33,6 +33,9 @@ RULE = ('ALL 576 pairs of terms of depth <= 2 over {a, b, X0, X1, f/1, g/2} exha
         'earlier unifications that are still suspended; atoms come from two engine instances; each pair is also run '
         'swapped. Non-trivial: both sides compound or a variable chain of length >= 2 is involved, and the two sides '
         'share a variable or a stacked binding is dereferenced. '
+        'Round 4: 30% of the random pairs and schedules carry constants that only the Python API can produce (pool of 74 values in clusters of easily confused ones: equal across '
+        'types, nearly equal, spelled alike, all empty), 300 pairs of such constants meeting in 14 shapes (directly, under a repeated variable, through active bindings / aliases, in lists), '
+        'and EVERY pair inside each cluster; expected outcome also from a reference unifier with == on the real values. '
         "kind 'sched' (creation and start are different moments): schedules of 2-5 unify generators over 2-5 shared variables "
         '(variable-variable, variable-constant, variable-compound and compound-compound pairs), events create / next / close / drop, '
         'started generators LIFO, creation at any time, plus ALL schedules "create g0, create g1, start them in either order" over a '
@@ -47,7 +50,9 @@ TRUSTED_BASE = [
     "reference unifier of the intrinsic oracle (harness/props/c02.py: _ref_unify, textbook algorithm with occurs check on JSON terms)",
 ]
 ASSUMPTIONS = ['cases whose solution needs a cyclic term (model result UCyc) are unspecified by the property: only required not to hang',
-               'raw Python constants are ints and strs (bool/float equality quirks of == are outside the model)']
+               'Python constants: the engine compares two constants with ==; on the generated pool (None, bools, ints, floats, Fraction, Decimal, complex, bytes, tuples, lists, strs; '
+               'harness/lib/pyconsts.py) == is an equivalence except for NaN, and the model gets the ==-class of a constant as an opaque value; NaN (not equal to itself) is judged by '
+               'the reference unifier of the oracle alone']
 CASE_TIMEOUT = 10
 
 def gen(rng, tier):
